@@ -114,6 +114,7 @@ JudgeDecapQ(e, rx, q, crc) ==
       probe == Has(e, "probe")
       \* probe packets also decide C16; for packets carrying extensions the delivery obligation is C13's
       PP(ps) == (IF probe THEN Append(ps, "C16") ELSE ps) \o (IF delim /\ Len(w.exts) > 0 THEN <<"C13">> ELSE <<>>)
+                \o (IF Has(e, "ilv") THEN <<"C07">> ELSE <<>>)      \* packets of an interleaving scenario
       id    == w.fragId
       kind  == IF delim THEN w.kind ELSE "none"
       isStart == kind \in {"complete", "first"}
@@ -285,6 +286,9 @@ JudgeDecapQ(e, rx, q, crc) ==
               \* mandatory extension - is "the nearest preceding start or complete packet" from now on
               ELSE IF w.ok \/ w.why = "unknown_mandatory" THEN {NoLabel, [k |-> w.lt, b |-> w.label]}
               ELSE rx.adm \cup {NoLabel, [k |-> w.lt, b |-> SubSeq(p, IF kind = "first" THEN 8 ELSE 5, (IF kind = "first" THEN 7 ELSE 4) + LtLen(w.lt))]})
+        \* well-formed intermediate / end packets carry no label: they leave the label memory alone (C04 "fragment
+        \* traffic", C07 "packets of unknown fragment ids"), whether they are accepted or rejected
+        ELSE IF wf /\ kind \in {"inter", "end"} THEN rx.adm
         ELSE rx.adm \cup {NoLabel}
       newGhost ==
         IF wf /\ kind = "first" /\ r.t = "fragmented"
